@@ -313,6 +313,22 @@ impl<'a, 'src: 'a> Compiler<'a, 'src> {
     }
   }
 
+  /// Number this compilation's inline cache slots after the slots earlier
+  /// compilations of the same module already use
+  pub fn with_cache_offsets(self, property_slots: usize, invoke_slots: usize) -> Self {
+    {
+      let mut cache_id_emitter = self.cache_id_emitter.borrow_mut();
+      for _ in 0..property_slots {
+        cache_id_emitter.emit_property();
+      }
+      for _ in 0..invoke_slots {
+        cache_id_emitter.emit_invoke();
+      }
+    }
+
+    self
+  }
+
   /// Compile the provided ast into managed function objects that
   /// contain the vm bytecode
   pub fn compile(
